@@ -178,7 +178,8 @@ def op_cases(draw, ops=None, dtypes=None, constraint=None, unsupported_rate=0.0,
     elif op == "mse_loss":
         c.update(shape=b + [draw(st.integers(1, 6))], reduction=draw(st.sampled_from(["mean", "sum", "default"])))
     c["seedA"] = draw(seeds); c["seedB"] = draw(seeds); c["seedG"] = draw(seeds)
-    c["noncontig"] = draw(st.integers(0, 4)) == 0  # operands with permuted strides (same values)
+    c["noncontig"] = draw(st.sampled_from([False, False, False, "transposed", "expanded"]))  # operand memory layout (same values)
+    c["positional"] = draw(st.integers(0, 3)) == 0  # every argument of the library call passed positionally (signature order)
     # the second data draw uses its own value profile: a scale that depends on magnitudes / sparsity is exposed
     c["profB"] = draw(st.sampled_from(profiles))
     if unsupported_rate and op in UNSUPPORTED and draw(st.floats(0, 1)) < unsupported_rate:
@@ -205,10 +206,13 @@ def ckw(c) -> dict:
 
 def build(c: dict, seed: int, unsupported: Optional[Tuple[str, Any]] = None, prof: Optional[str] = None) -> Built:
     op = c["op"]; pr = prof or c["prof"]; dt = DT[c["dtype"]]
+    U = _U_POSITIONAL if c.get("positional") else _U_KEYWORD  # noqa: N806  (shadows the module on purpose)
     def T(shape, k=0, prof=None):
         t = rt(shape, seed + k, prof or pr, dt)
-        if c.get("noncontig") and t.dim() >= 2:
+        if c.get("noncontig") in (True, "transposed") and t.dim() >= 2:
             t = t.transpose(-1, -2).contiguous().transpose(-1, -2)  # same values, non-contiguous strides
+        elif c.get("noncontig") == "expanded" and t.dim() >= 2 and t.shape[0] > 1:
+            t = t[:1].expand(t.shape)  # stride-0 leading dimension (rows repeated)
         return t
     ukw: Dict[str, Any] = {}
     if unsupported is not None:
@@ -347,6 +351,35 @@ def build(c: dict, seed: int, unsupported: Optional[Tuple[str, Any]] = None, pro
         return Built(lambda a, b_: U.mse_loss(a, b_, **kw, **ukw2), lambda a, b_: F.mse_loss(a, b_, **{k_: v_ for k_, v_ in kw.items() if v_ != "none"}),
                      [T(c["shape"]), T(c["shape"], 1)], ["input", "target"], [])
     raise KeyError(op)
+
+
+class _Positional:
+    """proxy for unit_scaling.functional: calls every function with all its arguments bound positionally"""
+
+    def __init__(self, mod):
+        self._mod = mod
+
+    def __getattr__(self, name):
+        import inspect
+        fn = getattr(self._mod, name)
+        if not callable(fn):
+            return fn
+        try:
+            sig = inspect.signature(fn)
+        except (TypeError, ValueError):
+            return fn
+
+        def call(*args, **kwargs):
+            try:
+                ba = sig.bind(*args, **kwargs)
+            except TypeError:
+                return fn(*args, **kwargs)
+            return fn(*ba.args, **ba.kwargs)
+        return call
+
+
+_U_KEYWORD = U
+_U_POSITIONAL = _Positional(U)
 
 
 def sum_reduced(c: dict) -> Optional[dict]:
